@@ -17,7 +17,7 @@ def base_workloads(tier, rng, n_random=0, profile="small"):
     """a few fixed, feature-rich workloads + seeded random ones"""
     wls = [
         ({"seed": 11, "n_chr": 3, "groups": 3, "paralogs": 1, "novel": 1, "antisense": 1},
-         {"read_group": "tag"}),
+         {"read_group": "tag", "count_exons": True}),
         ({"seed": 12, "n_chr": 4, "groups": 12, "group_missing": 5, "paralogs": 2, "novel": 2, "n_bams": 2,
           "dup_records": 1, "equal_len": 1, "pre_ids": 1},
          {"read_group": "read_id", "check_canonical": True, "count_exons": True}),
@@ -78,7 +78,7 @@ def random_cell(rng, allow_mem=True):
     }
 
 
-def structured_cells(hashseeds=(0, 1, 2), threads=(1, 2, 3, 16)):
+def structured_cells(hashseeds=(0, 1, 2, 3, 4, 5, 6, 7), threads=(1, 2, 3, 16)):
     """one-factor-at-a-time around the golden configuration, then a few combinations"""
     cells = []
     g = {"hashseed": 0, "threads": 1, "sched": {"policy": "serial", "seed": 0}, "high_memory": False,
